@@ -781,6 +781,62 @@ pub trait Prop: Sync {
   fn aux(&self, _env: &Env, _name: &str, _arg: &str) -> i32 {
     2
   }
+  /// day-indexed sub-checks for the engine's cold-start task: (sub-check, lo, hi, case maker). Every listed sub-check is
+  /// run in several FRESH PROCESSES whose very first request is an irregular date (see `cold_start`)
+  fn cold_subs(&self) -> Vec<(&'static str, i64, i64, fn(i64) -> Vec<i64>)> {
+    vec![]
+  }
+}
+
+pub const COLD_TASK: &str = "~cold";
+
+/// The irregular civil dates that make the first request of a cold-start process: the cut-over year and its edges, the
+/// first leap years, century years, both ends of the range, the reform-era seams, leap days
+pub fn cold_first_dates() -> Vec<(i64, i64, i64)> {
+  vec![(1582, 10, 15), (1582, 3, 1), (1582, 10, 4), (1582, 12, 31), (4, 2, 29), (9999, 12, 31), (1, 1, 1), (2000, 2, 29), (1582, 1, 1), (1900, 3, 1), (100, 2, 29), (24, 2, 10), (9, 1, 15), (239, 12, 31), (1600, 1, 1), (2033, 12, 22), (1583, 1, 1), (1581, 12, 31), (8, 12, 31), (2024, 2, 10), (9998, 12, 31), (1, 12, 31), (1500, 2, 29), (618, 12, 31)]
+}
+
+/// Cold start: this worker is a fresh process; before anything else has been asked of the library, sub-check `sub` is
+/// evaluated on ONE irregular date (chosen by the shard), then on a spread of ordinary dates over its whole domain, then on
+/// the other irregular dates. A table or anchor the library builds lazily from whatever request comes first in the
+/// process (or thread) must not make later answers depend on that first request.
+pub fn cold_start(p: &dyn Prop, env: &Env, shard: usize, _nshards: usize, out: &mut Out) {
+  let subs = p.cold_subs();
+  if subs.is_empty() {
+    return;
+  }
+  let c = crate::model::cal();
+  let firsts: Vec<i64> = cold_first_dates().into_iter().filter_map(|(y, m, d)| c.index(y, m, d).map(|i| i as i64)).collect();
+  let ev = |e: &Env, o: &mut Out, s: &str, cs: &Case| p.eval(e, o, s, cs);
+  let first = firsts[shard % firsts.len()];
+  let spread: i64 = env.tier.pick(1500, 30000) as i64;
+  for (sub, lo, hi, make) in &subs {
+    let clampi = |x: i64| x.clamp(*lo, *hi - 1);
+    let mut done: Vec<(String, Vec<i64>)> = vec![];
+    let mut one = |o: &mut Out, x: i64| {
+      let a = make(clampi(x));
+      o.cur_prelude = done.clone();
+      run_case(env, o, sub, &Case::ints(&a), &ev);
+      if done.len() < 3 {
+        done.push((sub.to_string(), a));
+      }
+    };
+    one(out, first);
+    out.class("cold_start_first_requests");
+    let n = hi - lo;
+    let step = (n / spread).max(1);
+    let off = (env.seed.wrapping_add(shard as u64 * 7919) % step as u64) as i64;
+    let mut x = lo + off;
+    while x < *hi {
+      one(out, x);
+      out.class("cold_start_spread_cases");
+      x += step;
+    }
+    for f in &firsts {
+      one(out, *f);
+    }
+    out.cur_prelude.clear();
+  }
 }
 
 // ---------------------------------------------------------------- parent: spawn workers, merge, report
@@ -795,7 +851,7 @@ pub fn run_worker(p: &dyn Prop, env: &Env, task: &str, shard: usize, nshards: us
   let mut out = Out::new();
   // a panic outside a guarded case (e.g. the library refusing a valid value while a generator prepares its cases) must not
   // take the worker's findings with it: it is recorded, and what was gathered so far is still reported
-  let r = catch_unwind(AssertUnwindSafe(|| p.run(env, task, shard, nshards, &mut out)));
+  let r = catch_unwind(AssertUnwindSafe(|| if task == COLD_TASK { cold_start(p, env, shard, nshards, &mut out) } else { p.run(env, task, shard, nshards, &mut out) }));
   if r.is_err() {
     let msg = LAST_PANIC.with(|p| p.borrow().clone());
     out.fail(env, Viol { sub: format!("worker:{}", task), kind: format!("panic_while_generating:{}", panic_tag(&msg)), case: Case::ints(&[shard as i64, nshards as i64]), key: BTreeMap::new(), desc: format!("task {} shard {}/{}: a library call made while preparing cases (valid arguments) panicked", task, shard, nshards), expected: "no panic on valid input".into(), got: msg });
@@ -837,6 +893,12 @@ pub fn run_parent(p: &dyn Prop, env: &Env) -> i32 {
   for t in &plan {
     for s in 0..t.shards {
       jobs.push((t.name.clone(), s, t.shards, wd.join(format!("{}-{}.json", t.name.replace('/', "_"), s))));
+    }
+  }
+  if !p.cold_subs().is_empty() {
+    let k = env.tier.pick(8, 24) as usize;
+    for s in 0..k {
+      jobs.push((COLD_TASK.to_string(), s, k, wd.join(format!("cold-{}.json", s))));
     }
   }
   let maxpar: usize = std::env::var("VERIF_JOBS").ok().and_then(|s| s.parse().ok()).unwrap_or_else(|| std::thread::available_parallelism().map(|n| n.get()).unwrap_or(8)).max(1);
